@@ -12,22 +12,20 @@ package main
 
 // C14: gitconfig is consulted for an option family only when no option of
 // that family was given on the command line (Changed(...) false for all of
-// them). The k-th call of flags.Changed, in source order, asks about:
-// 0 json-version, 1 threshold, 2 verbose, 3 no-verbose, 4 critical, 5 names,
-// 6 progress, 7 no-progress.
+// them). Calls are identified by callee and string-constant argument.
 //@ func mainImplementation
 //@   modifies everything
-//@   call 0 Changed as chJSON
-//@   call 1 Changed as chThreshold
-//@   call 2 Changed as chVerbose
-//@   call 3 Changed as chNoVerbose
-//@   call 4 Changed as chCritical
-//@   call 5 Changed as chNames
-//@   call 6 Changed as chProgress
-//@   call 7 Changed as chNoProgress
-//@   call 0 ConfigIntDefault assert *jsonOutput && !chJSON
-//@   call 0 ConfigStringDefault assert !chThreshold && !chVerbose && !chNoVerbose && !chCritical
-//@   call 1 ConfigStringDefault assert !chNames
-//@   call 0 ConfigBoolDefault assert !chProgress && !chNoProgress
+//@   call 0 Changed("json-version") as chJSON
+//@   call 0 Changed("threshold") as chThreshold
+//@   call 0 Changed("verbose") as chVerbose
+//@   call 0 Changed("no-verbose") as chNoVerbose
+//@   call 0 Changed("critical") as chCritical
+//@   call 0 Changed("names") as chNames
+//@   call 0 Changed("progress") as chProgress
+//@   call 0 Changed("no-progress") as chNoProgress
+//@   call 0 ConfigIntDefault("sizer.jsonVersion") assert *jsonOutput && !chJSON
+//@   call 0 ConfigStringDefault("sizer.threshold") assert !chThreshold && !chVerbose && !chNoVerbose && !chCritical
+//@   call 0 ConfigStringDefault("sizer.names") assert !chNames
+//@   call 0 ConfigBoolDefault("sizer.progress") assert !chProgress && !chNoProgress
 
 //@ property C14: (*NegatedBoolValue).Set mainImplementation
